@@ -48,6 +48,7 @@ def run(ctx):
         rule_sink_sequential(ctx, "C12.O", fw, "oligocgr::vectorise")
         rule_flush_pairing(ctx, "C12.O", fw, "oligocgr::vectorise")
         c11.point_text(ctx, "C12.T", fw, "oligocgr::vectorise", "({},{},{})", 3)
+        c11.error_discipline(ctx, "C12.O", fw, "oligocgr::vectorise", ONE)
     c03.maps_rules(dep(ctx, "C12", "C03"), "C03")
     from . import c06
     c06.reader_deps(ctx, "C12")
